@@ -1074,3 +1074,61 @@ Proof.
   intros. unfold run_new. rewrite <- fdrive_fpolls.
   destruct (fdrive n w (new_fut f c)) as [[r k] l]. reflexivity.
 Qed.
+
+(* ---- the reference functions spelled out per combinator (definitional) ---- *)
+Lemma spec_ref_and_then : forall a b req,
+  denote (AndThen a b) req = match denote a req with Ok v => denote b v | Err x => Err x end
+  /\ sem (AndThen a b) req = sem a req ++ match denote a req with Ok v => sem b v | Err _ => [] end.
+Proof. split; reflexivity. Qed.
+
+Lemma spec_ref_map : forall m a req,
+  denote (Map m a) req = match denote a req with Ok v => Ok (app_m m v) | Err x => Err x end
+  /\ sem (Map m a) req = sem a req ++ match denote a req with Ok v => [SMap KOk m v] | Err _ => [] end.
+Proof. split; reflexivity. Qed.
+
+Lemma spec_ref_map_err : forall m a req,
+  denote (MapErr m a) req = match denote a req with Ok v => Ok v | Err x => Err (app_m m x) end
+  /\ sem (MapErr m a) req = sem a req ++ match denote a req with Ok _ => [] | Err x => [SMap KErr m x] end.
+Proof. split; reflexivity. Qed.
+
+Lemma spec_ref_apply_fn : forall pre post a req,
+  denote (ApplyFn (WPrePost pre post) a) req
+  = match denote a (app_m pre req) with Ok v => Ok (app_m post v) | Err x => Err x end
+  /\ sem (ApplyFn (WPrePost pre post) a) req
+     = SMap KPre pre req :: sem a (app_m pre req)
+       ++ match denote a (app_m pre req) with Ok v => [SMap KPost post v] | Err _ => [] end.
+Proof. split; reflexivity. Qed.
+
+Lemma spec_ref_apply_fn_skip : forall r a req,
+  denote (ApplyFn (WSkip r) a) req = r /\ sem (ApplyFn (WSkip r) a) req = [].
+Proof. split; reflexivity. Qed.
+
+Lemma spec_wrappers_transparent : forall k a,
+  (forall n w req, run_call n w (Wrap k a) req = run_call n w a req)
+  /\ (forall req, denote (Wrap k a) req = denote a req)
+  /\ (forall w, poll_ready (Wrap k a) w = let '(a', r, l) := poll_ready a w in (Wrap k a', r, l)).
+Proof. split; [|split]; reflexivity. Qed.
+
+Lemma spec_ref_factory_and_then : forall a b c ka kb sa sb ea eb,
+  fsem (FAndThen a b) c = fjoin (fsem a c) (fsem b c)
+  /\ fjoin (ka, IOk sa) (kb, IOk sb) = (Nat.max ka kb, IOk (AndThen sa sb))
+  /\ fjoin (ka, IErr ea) (kb, IOk sb) = (ka, IErr ea)
+  /\ fjoin (ka, IOk sa) (kb, IErr eb) = (kb, IErr eb)
+  /\ fjoin (ka, IErr ea) (kb, IErr eb) = (if (ka <=? kb)%nat then (ka, IErr ea) else (kb, IErr eb)).
+Proof. repeat split; reflexivity. Qed.
+
+Lemma spec_ref_factory_wrappers : forall sw m k a c,
+  fsem (FMapSvc sw a) c = (let '(n, r) := fsem a c in (n, imap (sw_app sw) r))
+  /\ fsem (FMapInitErr m a) c = (let '(n, r) := fsem a c in (n, imap_err m r))
+  /\ fsem (FWrap FWBoxed a) c = (let '(n, r) := fsem a c in (n, imap (Wrap WBoxed) r))
+  /\ (k <> FWBoxed -> fsem (FWrap k a) c = fsem a c).
+Proof. repeat split. destruct k; [contradiction|reflexivity|reflexivity]. Qed.
+
+Lemma spec_ref_factory_config : forall m a b cs c,
+  fleaves (FMapConfig m a) c = fleaves a (map_cfg m c)
+  /\ fleaves (FUnitConfig a) c = fleaves a None
+  /\ fleaves (FApplyCfgFactory a cs) c = fleaves a None
+  /\ fleaves (FAndThen a b) c = fleaves a c ++ fleaves b c
+  /\ fsem (FMapConfig m a) c = fsem a (map_cfg m c)
+  /\ fsem (FUnitConfig a) c = fsem a None.
+Proof. repeat split. Qed.
